@@ -5,13 +5,14 @@ Open Scope N_scope.
 
 (* inet_pton's failures are caught inside parse_host: the oracle answers, it does not raise *)
 Definition oracle_total (O : oracles) : Prop :=
-  (forall h, exists b, o_inet4 O h = MOk b) /\ (forall h, exists r, o_inet6 O h = MOk r).
+  (forall h, exists b, o_inet4 O h = MOk b) /\ (forall h, exists r, o_inet6 O h = MOk r) /\
+  (forall s, exists r, o_int O s = MOk r).
 
 Definition only_parse_error {A} (r : mres A) : Prop :=
   match r with
   | MOk _ => True
   | MRaise e => e = URLParseError
-  | MOut w => True          (* outside the modelled domain: int() of a non-ASCII port string *)
+  | MOut w => True          (* only if the idna oracle itself answers MOut *)
   end.
 
 Section Total.
@@ -22,7 +23,7 @@ Hypothesis OT : oracle_total O.
 Lemma parse_host_total h : only_parse_error (parse_host O h).
 Proof.
   unfold parse_host. destruct h as [|h0 r]; [exact I|].
-  destruct OT as [O4 O6].
+  destruct OT as [O4 [O6 _]].
   destruct (memN 58 (h0 :: r) && (h0 =? 91) && last_is 93 (h0 :: r)).
   - destruct (O6 (removelast (tl (h0 :: r)))) as [x Hx]. rewrite Hx. cbn [mbind].
     destruct x; try exact I; try reflexivity.
@@ -34,15 +35,17 @@ Lemma mbind_only {A B} (x : mres A) (f : A -> mres B) :
   only_parse_error x -> (forall a, only_parse_error (f a)) -> only_parse_error (mbind x f).
 Proof. destruct x; cbn; auto. Qed.
 
-Lemma split_hostport_total hi : only_parse_error (split_hostport hi).
+Lemma split_hostport_total hi : only_parse_error (split_hostport O hi).
 Proof.
   unfold split_hostport. destruct hi as [|c hi]; [exact I|].
   destruct (partition 58 (c :: hi)) as [[host sep] port_str].
   destruct sep; [|exact I].
   destruct (if (match host with h0 :: _ => h0 =? 91 | [] => false end) && memN 93 port_str then _ else _)
     as [host' port_str'].
-  destruct (all_ascii port_str'); [|exact I].
-  destruct (py_int port_str'); [exact I|]. destruct port_str'; [exact I|reflexivity].
+  destruct (all_ascii port_str').
+  - destruct (py_int port_str'); [exact I|]. destruct port_str'; [exact I|reflexivity].
+  - destruct OT as [_ [_ OI]]. destruct (OI port_str') as [r Hr]. rewrite Hr. cbn [mbind].
+    destruct r; [exact I|reflexivity].
 Qed.
 
 Lemma parse_url_total s : only_parse_error (parse_url O s).
